@@ -373,6 +373,9 @@ class C18Runner:
         for r in self.rows:
             last[r["text"]] = r
         before = len(self.rows)
+        for r in self.rows:
+            if last[r["text"]] is not r and r.get("rowid") is not None:
+                self.used_rowids.discard(r["rowid"])     # (sqlite hands out max(rowid)+1: a freed top number comes back)
         self.rows = [r for r in self.rows if last[r["text"]] is r]
         if len(self.rows) != before:
             self.sim.probe("duplicates_purged_at_shell_start")
@@ -698,6 +701,7 @@ class C18Runner:
             sh.unrecorded_since = True
             for v in victims:
                 self.rows.remove(v)
+                self.used_rowids.discard(v["rowid"])
             self.sim.probe("history_delete")
             self.check_db("history delete of rows %s" % [v["rowid"] for v in victims])
             return
